@@ -73,7 +73,7 @@ Definition pass_test (inp : list Z) (r : prule) (pos : Z) : option pmatch :=
   | Some (em, sr, er) =>
       let sr' := if sr =? -1 then pos else sr in
       let er' := if sr =? -1 then em else er in
-      if (sr' <? pos) || (er' =? -1) || (er' <? sr') || (em <? er') then None else Some (mkPM pos sr' er' em)
+      if (sr' <? pos) || (er' =? -1) || (er' <? sr') then None else Some (mkPM pos sr' er' em)
   end.
 
 (* ---------------------------------------------------------------- the action (forward) *)
@@ -119,7 +119,7 @@ Definition do_action (inp : list Z) (cap : Z) (r : prule) (m : pmatch) (out pm :
             let pm2 := if count >? 0 then firstn (Z.to_nat dsm) pm1 else pm1 in
             match copy_chars inp cap out2 pm2 (m_sr m) (m_er m) with
             | None => (out2, pm2, None)
-            | Some (out3, pm3) => (out3, pm3, Some (m_end m))
+            | Some (out3, pm3) => (out3, pm3, Some (Z.max (m_er m) (m_end m)))
             end
       end
   end.
